@@ -374,6 +374,10 @@ class CParser:
                 while not isinstance(decls_0_tail, c_ast.TypeDecl):
                     decls_0_tail = decls_0_tail.type
                 if decls_0_tail.declname is None:
+                    if not isinstance(spec["type"][-1], c_ast.IdentifierType):
+                        # e.g. a lone '_Atomic(int);' - there is no type
+                        # specifier that could have been the declared name.
+                        self._parse_error("Invalid declaration", spec["type"][-1].coord)
                     decls_0_tail.declname = spec["type"][-1].names[0]
                     del spec["type"][-1]
 
